@@ -219,7 +219,41 @@ class Interp:
                 else:
                     raise Unsupported('del %s' % type(t).__name__)
         elif isinstance(s, ast.Raise):
-            raise Raised('interpreted function raises: %s' % ast.unparse(s)[:60])
+            r = Raised('interpreted function raises: %s' % ast.unparse(s)[:60])
+            x = s.exc.func if isinstance(s.exc, ast.Call) else s.exc
+            r.excname = x.id if isinstance(x, ast.Name) else (x.attr if isinstance(x, ast.Attribute) else None)
+            if s.exc is None and '#exc' in env:
+                r = env['#exc']
+            raise r
+        elif isinstance(s, ast.Try):
+            try:
+                try:
+                    self.block(s.body, env, mod)
+                except (_Return, _Break, _Continue):
+                    raise
+                except Exception as ex:
+                    if isinstance(ex, Unsupported) and not isinstance(ex, Raised):
+                        raise
+                    if not isinstance(ex, Raised):
+                        r = Raised('evaluated call raised %s: %s' % (type(ex).__name__, ex))
+                        r.excname = type(ex).__name__
+                        r.pyexc = ex
+                        ex = r
+                    h = _matching_handler(s.handlers, getattr(ex, 'excname', None))
+                    if h is None:
+                        raise ex
+                    if h.name:
+                        env[h.name] = getattr(ex, 'pyexc', ex)
+                    saved = env.get('#exc')
+                    env['#exc'] = ex
+                    try:
+                        self.block(h.body, env, mod)
+                    finally:
+                        env['#exc'] = saved
+                else:
+                    self.block(s.orelse, env, mod)
+            finally:
+                self.block(s.finalbody, env, mod)
         else:
             raise Unsupported('statement %s' % type(s).__name__)
 
@@ -366,6 +400,8 @@ class Interp:
             o = self.expr(e.value, env, mod) if not (isinstance(e.value, ast.Name) and e.value.id == 're') else None
             if isinstance(o, tuple) and len(o) == 2 and o[0] == '#classof' and e.attr == '__name__':
                 return o[1].name
+            if isinstance(o, tuple) and len(o) == 2 and o[0] == '#classof' and e.attr == '__module__':
+                return o[1].mod.name
             if _is_model(o) or _foreign(self, o):
                 return getattr(o, e.attr)
             if isinstance(o, Obj):
@@ -461,6 +497,9 @@ class Interp:
                         return True
                 elif isinstance(k, type) and isinstance(args[0], k):
                     return True
+                elif isinstance(k, type) and isinstance(args[0], Obj) and args[0].cls is not None and \
+                        any(b.split('.')[-1] == k.__name__ for b in self.prog.external_bases(args[0].cls.qn)):
+                    return True      # a repo class deriving from the library class the rule's stand-in represents
             return False
         if isinstance(fn, ast.Name) and fn.id in SAFE_BUILTINS and fn.id not in env and fn.id not in mod.syms:
             if fn.id in ('all', 'any', 'sorted', 'min', 'max', 'sum', 'list', 'tuple', 'set') and args and isinstance(args[0], list):
@@ -610,6 +649,23 @@ class Interp:
         if isinstance(op, ast.IsNot):
             return a is not b
         raise Unsupported('comparison')
+
+
+def _matching_handler(handlers, excname):
+    import builtins
+    exc = getattr(builtins, excname, None) if excname else None
+    for h in handlers:
+        if h.type is None:
+            return h
+        names = [h.type] if not isinstance(h.type, ast.Tuple) else list(h.type.elts)
+        for n in names:
+            nm = n.id if isinstance(n, ast.Name) else (n.attr if isinstance(n, ast.Attribute) else None)
+            if nm in ('Exception', 'BaseException') or (nm is not None and nm == excname):
+                return h
+            base = getattr(builtins, nm, None) if nm else None
+            if isinstance(exc, type) and isinstance(base, type) and issubclass(exc, base):
+                return h
+    return None
 
 
 class _Break(Exception):
